@@ -194,3 +194,4 @@ def run(P, R, tier):
 
 
 EXPLANATION += " Also: (BRANCH / COPYBACK) both execution paths of fit run the same kernels with the same inputs and everything the M-step writes is stored back through the setters; (ARGROLE.mstep) the M-step function receives the machine's own switches, thresholds and the relevance-factor flag with the right polarity; (COVER.pairs)."
+EXPLANATION += ' (COVER.tree) a tree-shaped fold in the M-step wrapper covers every block exactly once.'
